@@ -1028,7 +1028,55 @@ fn handoff(w: &mut World, rid: usize, cid: usize, st: usize, req_okey: &str) {
     }
 }
 
-pub type Svc = ConnectionPoolService<HTransport, HProtocol, HService, B>;
+/// A pool key a user may write: equal iff scheme and authority are equal (letter case aside), as the
+/// crate's own `UriKey` - but hashed by the host alone, so that the origins of one host collide in any
+/// hash table. Legal (`Eq`-equal keys hash alike); a table must fall back on `Eq`.
+#[derive(Debug, Clone, PartialEq, Eq)]
+pub struct CoarseKey {
+    scheme: String,
+    authority: String,
+    host: String,
+}
+impl std::hash::Hash for CoarseKey {
+    fn hash<H: std::hash::Hasher>(&self, state: &mut H) {
+        self.host.hash(state);
+    }
+}
+impl<'a> TryFrom<&'a http::request::Parts> for CoarseKey {
+    type Error = hyperdriver::client::pool::UriError;
+    fn try_from(parts: &'a http::request::Parts) -> Result<Self, Self::Error> {
+        // the same requests are refused as with the crate's own key
+        let _ = hyperdriver::client::pool::UriKey::try_from(parts)?;
+        Ok(CoarseKey {
+            scheme: parts.uri.scheme_str().unwrap_or("").to_ascii_lowercase(),
+            authority: parts.uri.authority().map(|a| a.as_str().to_ascii_lowercase()).unwrap_or_default(),
+            host: parts.uri.host().unwrap_or("").to_ascii_lowercase(),
+        })
+    }
+}
+
+#[derive(Clone)]
+pub enum Svc {
+    Uri(ConnectionPoolService<HTransport, HProtocol, HService, B>),
+    Coarse(ConnectionPoolService<HTransport, HProtocol, HService, B, CoarseKey>),
+}
+impl tower::Service<http::Request<B>> for Svc {
+    type Response = http::Response<B>;
+    type Error = hyperdriver::client::Error;
+    type Future = Pin<Box<dyn Future<Output = Result<http::Response<B>, hyperdriver::client::Error>> + Send>>;
+    fn poll_ready(&mut self, cx: &mut Context<'_>) -> Poll<Result<(), Self::Error>> {
+        match self {
+            Svc::Uri(s) => s.poll_ready(cx),
+            Svc::Coarse(s) => s.poll_ready(cx),
+        }
+    }
+    fn call(&mut self, req: http::Request<B>) -> Self::Future {
+        match self {
+            Svc::Uri(s) => Box::pin(s.call(req)),
+            Svc::Coarse(s) => Box::pin(s.call(req)),
+        }
+    }
+}
 
 // ------------------------------------------------------------------------------------------------
 // cases
@@ -1073,6 +1121,13 @@ pub struct PoolCfg {
     /// future is at fault either way, but the consequences differ
     #[serde(default)]
     pub fused_attempts: bool,
+    /// the pool is keyed by a user-written key type whose hash is coarser than its equality (`CoarseKey`)
+    #[serde(default)]
+    pub coarse_key: bool,
+    /// 0: the pool is built on the runtime that uses it; 1: on an earlier runtime that has been dropped;
+    /// 2: outside any runtime
+    #[serde(default)]
+    pub built_on: u8,
 }
 fn yes() -> bool {
     true
@@ -1160,15 +1215,20 @@ impl Sim {
         let layer = || hyperdriver::client::ConnectionPoolLayer::<_, _, B>::new(HTransport(w.clone()), HProtocol(w.clone()));
         let inner = HService(w.clone());
         use tower::Layer as _;
-        let svc = match cfg.build_path % 8 {
-            0 => ConnectionPoolService::new(HTransport(w.clone()), HProtocol(w.clone()), inner, pc),
-            1 => layer().with_pool(pc).layer(inner),
-            2 => layer().with_optional_pool(Some(pc)).layer(inner),
-            3 => layer().with_pool(other).with_optional_pool(Some(pc)).layer(inner),
-            4 => layer().with_optional_pool(Some(other)).with_pool(pc).layer(inner),
-            5 => layer().without_pool().with_pool(pc).layer(inner),
-            6 => layer().with_pool(other).with_pool(pc).layer(inner),
-            _ => layer().with_optional_pool(None).with_optional_pool(Some(pc)).layer(inner),
+        let svc = if cfg.coarse_key {
+            let layer = hyperdriver::client::ConnectionPoolLayer::<_, _, B, CoarseKey>::new(HTransport(w.clone()), HProtocol(w.clone()));
+            Svc::Coarse(if cfg.build_path % 2 == 0 { ConnectionPoolService::new(HTransport(w.clone()), HProtocol(w.clone()), inner, pc) } else { layer.with_pool(pc).layer(inner) })
+        } else {
+            Svc::Uri(match cfg.build_path % 8 {
+                0 => ConnectionPoolService::new(HTransport(w.clone()), HProtocol(w.clone()), inner, pc),
+                1 => layer().with_pool(pc).layer(inner),
+                2 => layer().with_optional_pool(Some(pc)).layer(inner),
+                3 => layer().with_pool(other).with_optional_pool(Some(pc)).layer(inner),
+                4 => layer().with_optional_pool(Some(other)).with_pool(pc).layer(inner),
+                5 => layer().without_pool().with_pool(pc).layer(inner),
+                6 => layer().with_pool(other).with_pool(pc).layer(inner),
+                _ => layer().with_optional_pool(None).with_optional_pool(Some(pc)).layer(inner),
+            })
         };
         Sim { w, svc, slots: vec![], cfg, noop: 0, total: 0 }
     }
@@ -2261,8 +2321,24 @@ pub fn run_pool_case(case: &PoolCase, logging: bool, phases: Phases) -> RunOut {
     let world2 = world.clone();
     let case2 = case.clone();
     let res = std::panic::catch_unwind(AssertUnwindSafe(|| {
+        // where the pool comes into being: on the runtime that uses it, on an earlier runtime that is
+        // gone by then (a client built in a start-up `block_on`, or shared between tests), or outside
+        // any runtime (a lazily initialised static)
+        let prebuilt = match case2.cfg.built_on % 3 {
+            1 => {
+                let early = tokio::runtime::Builder::new_current_thread().enable_time().build().expect("runtime");
+                let sim = early.block_on(async { Sim::new(case2.cfg.clone(), logging) });
+                drop(early);
+                Some(sim)
+            }
+            2 => Some(Sim::new(case2.cfg.clone(), logging)),
+            _ => None,
+        };
         rt.block_on(async move {
-            let mut sim = Sim::new(case2.cfg.clone(), logging);
+            let mut sim = match prebuilt {
+                Some(sim) => sim,
+                None => Sim::new(case2.cfg.clone(), logging),
+            };
             *world2.lock().unwrap() = Some(sim.w.clone());
             for op in &case2.ops {
                 sim.apply(op).await;
@@ -2446,7 +2522,7 @@ pub fn corpus_mutation_strategy(seeds: Vec<PoolCase>, wt: Weights) -> impl Strat
         prop_oneof![3 => Just(None), 1 => cfg_any_strategy().prop_map(Some)],
     )
         .prop_map(move |(i, edits, cfg)| {
-            let mut case = seeds.get(i).cloned().unwrap_or(PoolCase { cfg: PoolCfg { idle_timeout_ms: None, max_idle: 32, cont: true, req_timeout_ms: None, open_is_ready: true, caller_host: 0, single_use: false, holder_polls_ready: false, ready_hides_close: false, build_path: 0, fused_attempts: false }, ops: vec![] });
+            let mut case = seeds.get(i).cloned().unwrap_or(PoolCase { cfg: PoolCfg { idle_timeout_ms: None, max_idle: 32, cont: true, req_timeout_ms: None, open_is_ready: true, caller_host: 0, single_use: false, holder_polls_ready: false, ready_hides_close: false, build_path: 0, fused_attempts: false, coarse_key: false, built_on: 0 }, ops: vec![] });
             for (kind, pos, op) in edits {
                 let len = case.ops.len();
                 let at = if len == 0 { 0 } else { pos as usize * len >> 16 };
@@ -2504,6 +2580,8 @@ pub fn cfg_plain_strategy() -> impl Strategy<Value = PoolCfg> {
         ready_hides_close: false,
         build_path: 0,
         fused_attempts,
+        coarse_key: false,
+        built_on: 0,
     })
 }
 
@@ -2520,6 +2598,8 @@ pub fn cfg_timeout_strategy() -> impl Strategy<Value = PoolCfg> {
         ready_hides_close: false,
         build_path: 0,
         fused_attempts: false,
+        coarse_key: false,
+        built_on: 0,
     })
 }
 
@@ -2536,6 +2616,8 @@ pub fn cfg_expiry_strategy() -> impl Strategy<Value = PoolCfg> {
         ready_hides_close: false,
         build_path: 0,
         fused_attempts: false,
+        coarse_key: false,
+        built_on: 0,
     })
 }
 
@@ -2582,7 +2664,7 @@ pub fn expiry_scenario_strategy() -> impl Strategy<Value = PoolCase> {
             for j in 0..probes {
                 ops.push(Op::Poll(((j * 65536) / probes) as u16 + 1));
             }
-            PoolCase { cfg: PoolCfg { idle_timeout_ms: timeout, max_idle: 32, cont, req_timeout_ms: None, open_is_ready: true, caller_host: 0, single_use: false, holder_polls_ready: false, ready_hides_close: false, build_path: 0, fused_attempts: false }, ops }
+            PoolCase { cfg: PoolCfg { idle_timeout_ms: timeout, max_idle: 32, cont, req_timeout_ms: None, open_is_ready: true, caller_host: 0, single_use: false, holder_polls_ready: false, ready_hides_close: false, build_path: 0, fused_attempts: false, coarse_key: false, built_on: 0 }, ops }
         })
 }
 
@@ -2613,7 +2695,7 @@ pub fn expiry_whole_second_strategy() -> impl Strategy<Value = PoolCase> {
         for j in 0..probes {
             ops.push(Op::Poll(((j * 65536) / probes) as u16 + 1));
         }
-        PoolCase { cfg: PoolCfg { idle_timeout_ms: timeout, max_idle: 32, cont, req_timeout_ms: None, open_is_ready, caller_host: 0, single_use: false, holder_polls_ready: false, ready_hides_close: false, build_path: 0, fused_attempts: false }, ops }
+        PoolCase { cfg: PoolCfg { idle_timeout_ms: timeout, max_idle: 32, cont, req_timeout_ms: None, open_is_ready, caller_host: 0, single_use: false, holder_polls_ready: false, ready_hides_close: false, build_path: 0, fused_attempts: false, coarse_key: false, built_on: 0 }, ops }
     })
 }
 
@@ -2639,7 +2721,7 @@ pub fn many_origins_strategy(max_ops: usize) -> impl Strategy<Value = PoolCase> 
     )
         .prop_map(|(n, mut ops, cont)| {
             ops.insert(0, Op::Sweep { n });
-            PoolCase { cfg: PoolCfg { idle_timeout_ms: None, max_idle: 32, cont, req_timeout_ms: None, open_is_ready: true, caller_host: 0, single_use: false, holder_polls_ready: false, ready_hides_close: false, build_path: 0, fused_attempts: false }, ops }
+            PoolCase { cfg: PoolCfg { idle_timeout_ms: None, max_idle: 32, cont, req_timeout_ms: None, open_is_ready: true, caller_host: 0, single_use: false, holder_polls_ready: false, ready_hides_close: false, build_path: 0, fused_attempts: false, coarse_key: false, built_on: 0 }, ops }
         })
 }
 
@@ -2669,7 +2751,7 @@ pub fn many_origins_mid_strategy(max_ops: usize) -> impl Strategy<Value = PoolCa
         .prop_map(|(n, mut before, after, cont, max_idle)| {
             before.push(Op::Sweep { n });
             before.extend(after);
-            PoolCase { cfg: PoolCfg { idle_timeout_ms: None, max_idle, cont, req_timeout_ms: None, open_is_ready: true, caller_host: 0, single_use: false, holder_polls_ready: false, ready_hides_close: false, build_path: 0, fused_attempts: false }, ops: before }
+            PoolCase { cfg: PoolCfg { idle_timeout_ms: None, max_idle, cont, req_timeout_ms: None, open_is_ready: true, caller_host: 0, single_use: false, holder_polls_ready: false, ready_hides_close: false, build_path: 0, fused_attempts: false, coarse_key: false, built_on: 0 }, ops: before }
         })
 }
 
@@ -2707,7 +2789,7 @@ pub fn near_origins_strategy(wt: Weights, max_ops: usize) -> impl Strategy<Value
                         other => other,
                     })
                     .collect();
-                let cfg = PoolCfg { caller_host: (picks[0] % 3) as u8, ..cfg };
+                let cfg = PoolCfg { caller_host: (picks[0] % 3) as u8, coarse_key: picks[0] / 3 % 3 == 0, ..cfg };
                 PoolCase { cfg, ops }
             })
     })
@@ -2717,7 +2799,7 @@ pub fn near_origins_strategy(wt: Weights, max_ops: usize) -> impl Strategy<Value
 /// combination in which a released-but-busy connection, a closed idle entry and the idle bound meet.
 pub fn cfg_small_idle_strategy() -> impl Strategy<Value = PoolCfg> {
     (prop_oneof![Just(None), Just(Some(0u64)), Just(Some(3_600_000u64))], prop_oneof![Just(1usize), Just(2)], any::<bool>(), prop_oneof![1 => Just(true), 3 => Just(false)], any::<bool>())
-        .prop_map(|(t, m, cont, open_is_ready, holder_polls_ready)| PoolCfg { idle_timeout_ms: t, max_idle: m, cont, req_timeout_ms: None, open_is_ready, caller_host: 0, single_use: false, holder_polls_ready, ready_hides_close: false, build_path: 0, fused_attempts: false })
+        .prop_map(|(t, m, cont, open_is_ready, holder_polls_ready)| PoolCfg { idle_timeout_ms: t, max_idle: m, cont, req_timeout_ms: None, open_is_ready, caller_host: 0, single_use: false, holder_polls_ready, ready_hides_close: false, build_path: 0, fused_attempts: false, coarse_key: false, built_on: 0 })
 }
 
 pub fn cfg_any_strategy() -> impl Strategy<Value = PoolCfg> {
@@ -2730,8 +2812,9 @@ pub fn cfg_any_strategy() -> impl Strategy<Value = PoolCfg> {
         prop_oneof![3 => Just(false), 1 => Just(true)],
         prop_oneof![2 => Just(0u8), 1 => 1u8..8],
         prop_oneof![2 => Just(false), 1 => Just(true)],
+        prop_oneof![4 => Just(0u8), 1 => Just(1u8), 1 => Just(2u8)],
     )
-        .prop_map(|(t, m, cont, open_is_ready, holder_polls_ready, ready_hides_close, build_path, fused_attempts)| PoolCfg { idle_timeout_ms: t, max_idle: m, cont, req_timeout_ms: None, open_is_ready, caller_host: 0, single_use: false, holder_polls_ready, ready_hides_close, build_path, fused_attempts })
+        .prop_map(|(t, m, cont, open_is_ready, holder_polls_ready, ready_hides_close, build_path, fused_attempts, built_on)| PoolCfg { idle_timeout_ms: t, max_idle: m, cont, req_timeout_ms: None, open_is_ready, caller_host: 0, single_use: false, holder_polls_ready, ready_hides_close, build_path, fused_attempts, coarse_key: false, built_on })
 }
 
 // ------------------------------------------------------------------------------------------------
